@@ -299,7 +299,7 @@ def main(sess):
                 role = 'grouped/' + ('order' if (struct_ok and sorted(gotkeys) == sorted(exp) and order) else 'partition')
                 sess.violated(name, role, 'rows %r -> group rows %r' % (spec, shown), {'rows': spec, 'order': order, 'desc': desc},
                               cli_replay_fnkey(spec) if fnkey else cli_replay(spec, order, desc), fam)
-            ex.explore(run, on_path, time_budget=120 if sess.tier == 'quick' else 900)
+            ex.explore(run, on_path, time_budget=240 if sess.tier == 'quick' else 900)
         if not box.get('viol') and not box.get('bad'):
             sess.discharged('%s: 0..%d rows, every key assignment: one row per distinct key, COUNT and SUM of the block%s' % (fam, N, ', sorted' if order else ''),
                             family=fam, queries=box.get('paths', 1))
